@@ -125,6 +125,10 @@ def gen_single_ops(rng, aid, n_iter, with_solve=True, results_prob=0.15, after_s
     if refine_ops and rng.random() < 0.5:
         ops.append({"a": aid, "op": "refine", "n": rng.choice([-1, 0, 1, 5, 50])})
         ops.append({"a": aid, "op": "results"})
+    if rng.random() < 0.04:
+        # a batching driver whose computed batch size happens to be 0 (finalise_plan drops it for solvers that carry a
+        # shipped console / painting listener: those cannot digest an empty batch at this commit, see DESIGN 12)
+        ops.insert(rng.randint(1, len(ops)), {"a": aid, "op": "iterate", "k": 0})
     return ops
 
 
@@ -230,6 +234,22 @@ def gen_clock(rng):
     if rng.random() < 0.3:
         c["jumps"] = [{"at_call": rng.randint(1, 60), "by": float("%.3g" % loguniform(rng, 1, 1e5))}]
     return c
+
+
+def finalise_plan(plan):
+    """Idempotent, draws nothing: zero-size batches are only kept for solvers whose listeners are all user-written ones
+    (the shipped console and painting listeners index the first point of the batch they are told about)."""
+    if plan.get("suite") != "solver":
+        return plan
+    shipped = {aid for aid, a in plan.get("actors", {}).items()
+               if any(l.get("kind") != "recording" for l in a.get("listeners", []) or [])}
+    def keep(o):
+        return not (o.get("op") == "iterate" and o.get("k") == 0 and o.get("a") in shipped)
+    if shipped:
+        plan["ops"] = [o for o in plan["ops"] if keep(o)]
+        for n in plan.get("nested", []) or []:
+            n["ops"] = [o for o in n["ops"] if keep(o)]
+    return plan
 
 
 def base_plan(prop, run_seed, actors, ops, **extra):
